@@ -145,7 +145,13 @@ func c19HeaderName(k int) string {
 
 var c19HeaderIDs = []int{1, 2, 3, 4, 5, 6, 7, 8, 9, 100, 101, 102}
 
+// c19VEmpty is the id of the EMPTY header value (Scope.vEmpty).
+const c19VEmpty = 7
+
 func c19HeaderValue(v int) string {
+	if v == c19VEmpty {
+		return ""
+	}
 	if v >= 2000 {
 		return fmt.Sprintf("Bearer tok%d", v-2000)
 	}
@@ -154,6 +160,8 @@ func c19HeaderValue(v int) string {
 
 func c19HeaderValueID(s string) int {
 	switch {
+	case s == "":
+		return c19VEmpty
 	case s == header.DefaultUserAgent:
 		return 900
 	case s == "text/plain; charset=utf-8":
@@ -763,7 +771,7 @@ func c19DumpFlags(s string, w int) string {
 	if s == "" {
 		return "_"
 	}
-	fl := []int{w, c19Bool(strings.Contains(s, "User-Agent:")), c19Bool(strings.Contains(s, "QQ")),
+	fl := []int{w, c19Bool(strings.Contains(s, "\r\nHost: ") || strings.Contains(s, "User-Agent:")), c19Bool(strings.Contains(s, "QQ")),
 		c19Bool(strings.Contains(s, "X-Verif-Resp:")), c19Bool(strings.Contains(s, c19RespMark))}
 	if fl[1]+fl[2]+fl[3]+fl[4] == 0 {
 		return "_"
